@@ -35,6 +35,7 @@ const rlUsers = 4 // users u1..u4; u0 is present with password 1 in every well-f
 
 type rlVersion struct {
 	kind  int         // 0 good, 1 malformed, 2 empty
+	shape int         // which malformed shape (htpasswd): 0 wrong field count, 1 last entry with an unsupported hash, 2 bare quote, 3 one-field record first
 	users map[int]int // user → password id (htpasswd) / 1 (e-mail list)
 }
 
@@ -78,13 +79,25 @@ func (t *rlHt) reportsErrors() bool { return true }
 func (t *rlHt) render(v rlVersion) string {
 	var sb strings.Builder
 	sb.WriteString("# htpasswd\n")
+	if v.kind == 1 && v.shape == 3 {
+		sb.WriteString("justauser\n")
+	}
 	for u := 0; u <= rlUsers; u++ {
 		if p, ok := v.users[u]; ok && v.kind != 2 {
 			fmt.Fprintf(&sb, "u%d:%s\n", u, htpasswdSHA(fmt.Sprintf("pw%d", p)))
 		}
 	}
 	if v.kind == 1 {
-		sb.WriteString("broken:record:here\n")
+		switch v.shape {
+		case 1:
+			// every record has two fields; only the LAST entry's password is neither {SHA} nor bcrypt
+			sb.WriteString("admin:plaintext\n")
+		case 2:
+			sb.WriteString("qu\"ote:{SHA}W6ph5Mm5Pz8GgiULbPgzG37mj9g=\n")
+		case 3:
+		default:
+			sb.WriteString("broken:record:here\n")
+		}
 	}
 	return sb.String()
 }
@@ -169,6 +182,7 @@ func rlGen(r *rng, forceGood bool, pwRange int) rlVersion {
 	}
 	if !forceGood && k == 1 {
 		v.kind = 1
+		v.shape = r.intn(4)
 	}
 	return v
 }
